@@ -570,6 +570,7 @@ pub fn apply(s: &mut Pool2, step: &Step, ctx: &mut Ctx) {
         Op::Provide { amounts, slippage, receiver, rev, funds_mode } => {
             s.funds_mode_next.set(*funds_mode);
             if *funds_mode != 0 { ctx.probe("provide_with_missing_native_funds"); }
+            if *funds_mode >= 3 { ctx.probe("provide_with_mislabelled_assets"); }
             s.rev_next.set(*rev);
             if *rev { ctx.probe("provide_assets_listed_in_reverse_order"); }
             do_provide(s, ctx, actor, *amounts, slippage, *receiver, step.fault, "provide");
